@@ -147,7 +147,7 @@ fn main() {
                 viol.push(json!({"what": "panic while driving the node", "detail": msg, "history_id": format!("seed={sd} index={i}")}));
             }
         }
-        if viol.len() > 20 {
+        if viol.iter().filter(|v| v.get("signature").is_none()).count() > 5 {
             break;
         }
     }
